@@ -50,6 +50,7 @@ type symEval struct {
 	depth int
 	ret   types.Object                 // pseudo-variable that collects the function's return expressions
 	lits  map[*ast.CompositeLit]symDef // enclosing clause of every composite literal
+	deref map[types.Object][]symDef    // `*p = e` stores through a pointer variable p (a cache cell handed to a helper)
 }
 
 type implBinding struct {
@@ -151,6 +152,16 @@ func newSymEval(c *Ctx, p *packages.Package, fd *ast.FuncDecl, side string) *sym
 					case *ast.Ident:
 						if obj := info.ObjectOf(l); obj != nil && l.Name != "_" {
 							se.defs[obj] = append(se.defs[obj], symDef{rhs, cl, sw, curIf, m.Pos()})
+						}
+					case *ast.StarExpr:
+						// *p = e: what the cell p points to holds afterwards (operandType(&inst.Typ, inst.X))
+						if id, ok := unparen(l.X).(*ast.Ident); ok {
+							if obj := info.ObjectOf(id); obj != nil {
+								if se.deref == nil {
+									se.deref = map[types.Object][]symDef{}
+								}
+								se.deref[obj] = append(se.deref[obj], symDef{rhs, cl, sw, curIf, m.Pos()})
+							}
 						}
 					case *ast.SelectorExpr:
 						// recv.Typ = e  (library side): recorded under the field object
@@ -506,6 +517,12 @@ func (se *symEval) term(e ast.Expr) string {
 	case *ast.BinaryExpr:
 		return "(" + se.term(e.X) + e.Op.String() + se.term(e.Y) + ")"
 	case *ast.StarExpr:
+		// the content of a cache cell filled in this function: `if *p == nil { *p = e }; return *p` is e
+		if id, ok := unparen(e.X).(*ast.Ident); ok {
+			if ds := se.deref[info.ObjectOf(id)]; len(ds) == 1 {
+				return se.term(ds[0].expr)
+			}
+		}
 		return se.term(e.X)
 	case *ast.CallExpr:
 		return se.callTerm(e)
@@ -732,6 +749,10 @@ func ruleTYPAGREE(c *Ctx) []Obligation {
 			}
 		}
 		lterm := le.termOfDefs(le.defs[typField], "Typ")
+		if strings.Contains(lterm, "?undefined:") {
+			// the cell is filled by a helper that is handed its address: what Type() returns is what the cell holds
+			lterm = le.termOfDefs(le.defs[le.ret], "$ret")
+		}
 		pterm := ps.term
 		norm := func(s string) string {
 			// a list of typed operands handed to a helper as AST nodes (parser) or as IR values (library)
@@ -794,7 +815,10 @@ func ruleTYPAGREE(c *Ctx) []Obligation {
 				st := n.Underlying().(*types.Struct)
 				for i := 0; i < st.NumFields(); i++ {
 					if st.Field(i).Name() == "Typ" {
-						return se.termOfDefs(se.defs[st.Field(i)], "Typ")
+						if t := se.termOfDefs(se.defs[st.Field(i)], "Typ"); !strings.Contains(t, "?undefined:") {
+							return t
+						}
+						return se.termOfDefs(se.defs[se.ret], "$ret")
 					}
 				}
 				return "?noTyp"
